@@ -36,8 +36,19 @@ Proved for all states/days:
 Hypotheses that had to be stated: `a.isAL` (Valuate tracks asset/liability positions only), `c ≠ V`, distinct keys of
 `vQty` (`AMap.NodupKeys`; holds for the empty state and is preserved: part of the conclusions), `Unvalued`.
 
-Not covered here: the Filter/CloseAccounts/Query stages after valuation (the report's cell is the sum of `valOn` over
-the days inside the window; closings touch income/expense accounts only) — the monitor compares the real report.
+The whole pipeline (`Balance.run`: check, ComputePrices, Valuate, Filter, CloseAccounts, Query):
+
+* `pipelineRun cfg st days` – `Balance.dayTxs` folded over the days collecting the transactions handed to the Query
+  stage (`C03_run_is_pipelineRun`: `Balance.run` is this fold, its report inserts are `queryTx` of the collected
+  transactions); `traceOfRun` the trace extracted along it; `entryVal a c es` the total of the report inserts on `(a, c)`;
+* `C03_run_is_trace_run` – for a plain valued report (`Plain cfg`: no mapping/remap/filters, the check's own proviso)
+  whose days all lie inside the window (`cfg.span`), `entryVal a c (report inserts) = W` and `vQty(a, c) = Q` of
+  `MTM.run` on the extracted trace;
+* `C03_run_mtm_bound` – hence `|entryVal a c inserts − quantity × last price| ≤ steps/10⁸` for `Balance.run` itself.
+
+Not covered: days outside the window (`--from` after the journal's first day: Filter drops the day's transactions,
+the report then shows the change inside the window — the known finding; `C03_pipeline_mtm_bound_window` is the trace-side
+statement for it) and the rendering of the inserts into cells (C06/C01 material; the monitor compares the real report).
 -/
 namespace Knut.C03
 open Knut Knut.Dec Knut.MTM
@@ -185,10 +196,71 @@ theorem C03_ofBookings_unvalued (a : Account) (c : Commodity) (date : Int) (desc
   simp only [List.mem_cons, List.not_mem_nil, or_false] at hp
   rcases hp with rfl | rfl <;> simp only <;> split <;> simp
 
+/-! ### the whole pipeline -/
+
+/-- `Balance.run` is `pipelineRun` from the empty state with the transactions forgotten, and its report inserts are the
+Query stage applied to the transactions collected -/
+theorem C03_run_is_pipelineRun (cfg : BalCfg) (days : List Day) (stF : BalState)
+    (h : Balance.run cfg days = .ok stF) :
+    ∃ txs, pipelineRun cfg {} days = .ok (stF, txs) ∧ stF.entries = txs.flatMap (Balance.queryTx cfg) :=
+  run_pipelineRun cfg days stF h
+
+/-- **`Balance.run`, projected on `(a, c)`, is `MTM.run` on the extracted trace**: plain valued report, all days inside
+the window -/
+theorem C03_run_is_trace_run (cfg : BalCfg) (v : Commodity) (a : Account) (c : Commodity)
+    (days : List Day) (stF : BalState) (p0 : Rat)
+    (hv : cfg.valuation = some v) (hc : c ≠ v) (hal : a.isAL = true) (hpl : Plain cfg)
+    (hsp : ∀ d ∈ days, cfg.span.contains d.date = true)
+    (hu : ∀ d ∈ days, Unvalued a c d.transactions)
+    (h : Balance.run cfg days = .ok stF) :
+    (run {} (traceOfRun cfg a c p0 {} days)).W = entryVal a c stF.entries ∧
+    (run {} (traceOfRun cfg a c p0 {} days)).Q = stF.vQty.get (a, c) 0 ∧
+    Consistent p0 (traceOfRun cfg a c p0 {} days) ∧
+    PriceIs stF.vPrev c (lastPrice p0 (traceOfRun cfg a c p0 {} days)) := by
+  obtain ⟨txs, hp, he⟩ := run_pipelineRun cfg days stF h
+  obtain ⟨e1, e2, e3⟩ := C03_empty_state_ok a c p0
+  have hinv : CloseInv {} := by intro k hk; cases hk
+  obtain ⟨h1, h2, h3, _, _⟩ := pipelineRun_trace cfg v a c hv hc hal days {} stF txs p0 {} e1 hinv hsp hu e2 e3.symm hp
+  have hvs : cfg.valuation.isSome = true := by rw [hv]; rfl
+  refine ⟨?_, h2, consistent_traceOfRun cfg a c days p0 {}, h3⟩
+  rw [h1, he, entryVal_flatMap cfg hpl hvs]
+  exact Rat.zero_add _
+
+/-- **mark-to-market bound for `Balance.run`**: in a plain valued report whose days all lie inside the window, the
+report inserts on an asset/liability position `(a, c)`, `c ≠ V`, total `quantity × last price` up to one unit of the 8th
+decimal per truncation -/
+theorem C03_run_mtm_bound (cfg : BalCfg) (v : Commodity) (a : Account) (c : Commodity)
+    (days : List Day) (stF : BalState) (p0 : Rat)
+    (hv : cfg.valuation = some v) (hc : c ≠ v) (hal : a.isAL = true) (hpl : Plain cfg)
+    (hsp : ∀ d ∈ days, cfg.span.contains d.date = true)
+    (hu : ∀ d ∈ days, Unvalued a c d.transactions)
+    (h : Balance.run cfg days = .ok stF) :
+    (entryVal a c stF.entries - stF.vQty.get (a, c) 0 * lastPrice p0 (traceOfRun cfg a c p0 {} days)).abs
+      ≤ ((run {} (traceOfRun cfg a c p0 {} days)).steps : Rat) / (10 : Rat) ^ 8 ∧
+    PriceIs stF.vPrev c (lastPrice p0 (traceOfRun cfg a c p0 {} days)) := by
+  obtain ⟨h1, h2, h3, h4⟩ := C03_run_is_trace_run cfg v a c days stF p0 hv hc hal hpl hsp hu h
+  have hb := C03_mtm_bound p0 (traceOfRun cfg a c p0 {} days) h3
+  rw [h1, h2] at hb
+  exact ⟨hb, h4⟩
+
+/-- … with the last price named -/
+theorem C03_run_mtm_bound_priced (cfg : BalCfg) (v : Commodity) (a : Account) (c : Commodity)
+    (days : List Day) (stF : BalState) (pl : Rat)
+    (hv : cfg.valuation = some v) (hc : c ≠ v) (hal : a.isAL = true) (hpl : Plain cfg)
+    (hsp : ∀ d ∈ days, cfg.span.contains d.date = true)
+    (hu : ∀ d ∈ days, Unvalued a c d.transactions)
+    (h : Balance.run cfg days = .ok stF)
+    (hl : Balance.lookupPrice stF.vPrev c = .ok pl) :
+    (entryVal a c stF.entries - stF.vQty.get (a, c) 0 * pl).abs
+      ≤ ((run {} (traceOfRun cfg a c 0 {} days)).steps : Rat) / (10 : Rat) ^ 8 := by
+  obtain ⟨hb, hp⟩ := C03_run_mtm_bound cfg v a c days stF 0 hv hc hal hpl hsp hu h
+  rw [← hp pl hl] at hb
+  exact hb
+
 /-! ### Non-vacuity
 
 A four-day journal valued in CHF, position `(Assets:A, USD)`:
-day 1 only cash is booked (USD has no price yet: the trace carries the start price);
+day 1 the accounts are opened and only cash is booked (USD has no price yet: the trace carries the start price);
 day 2 USD is priced 0.5, 3.5 USD are bought and 1 USD is booked from `Assets:A` to itself (two postings on the position);
 day 3 USD is priced 1.333333333 (stored as 1.33333333): the adjustment `Truncate₈(0.83333333 × 3.5)` loses 5·10⁻⁹;
 day 4 (no new price) 1 USD is sold. -/
@@ -196,7 +268,8 @@ day 4 (no new price) 1 USD is sold. -/
 def exA : Account := ⟨["Assets", "A"]⟩
 def exE : Account := ⟨["Equity", "E"]⟩
 def exDays : List Day :=
-  [ { date := 1, transactions := [Transaction.ofBookings 1 "cash" none [⟨exE, exA, 100, "CHF"⟩]] },
+  [ { date := 1, openings := [⟨1, exA⟩, ⟨1, exE⟩],
+      transactions := [Transaction.ofBookings 1 "cash" none [⟨exE, exA, 100, "CHF"⟩]] },
     { date := 2, prices := [⟨2, "USD", 1/2, "CHF"⟩],
       transactions := [Transaction.ofBookings 2 "buy" none [⟨exE, exA, 7/2, "USD"⟩, ⟨exA, exA, 1, "USD"⟩]] },
     { date := 3, prices := [⟨3, "USD", 1333333333/1000000000, "CHF"⟩] },
@@ -225,5 +298,19 @@ example : ∀ d ∈ exDays, Unvalued exA "USD" d.transactions := by
   · exact C03_ofBookings_unvalued _ _ _ _ _ _
   · intro t ht; cases ht
   · exact C03_ofBookings_unvalued _ _ _ _ _ _
+
+/-- the same journal through the WHOLE pipeline (`Balance.run`: the check accepts it, all days are inside the window):
+the report inserts on the position total 3.33333332 -/
+example : (match Balance.run exCfg exDays with
+    | .ok st => decide (st.vQty.get (exA, "USD") 0 = 5/2 ∧ entryVal exA "USD" st.entries = 333333332/100000000 ∧
+        st.entries.length = 10)
+    | .error _ => false) = true := by decide +kernel
+
+example : (traceOfRun exCfg exA "USD" 0 {} exDays).map (fun d => (d.pPrev, d.pCur, d.qs)) =
+    (traceOf exCfg exA "USD" 0 {} exDays).map (fun d => (d.pPrev, d.pCur, d.qs)) := by decide +kernel
+
+example : Plain exCfg := ⟨rfl, fun _ => rfl, fun _ => rfl, fun _ => rfl⟩
+
+example : ∀ d ∈ exDays, exCfg.span.contains d.date = true := by decide +kernel
 
 end Knut.C03
